@@ -24,8 +24,8 @@ def population(ctx, kind):
     if kind == "lalr":     # C03, C04, C05
         if ctx.quick():
             return ["-corpus", CORPUS, "-small-max", 3, "-small-slices", 16, "-small-slice", s % 16,
-                    "-nrand", 300, "-ndp", 150, "-nctx", 150, "-nexpr", 60, "-nring", 40]
-        return ["-corpus", CORPUS, "-small-max", 3, "-nrand", 5000, "-ndp", 2000, "-nctx", 2000, "-nexpr", 600, "-nring", 400]
+                    "-nrand", 300, "-ndp", 150, "-nctx", 150, "-nexpr", 60, "-nring", 40, "-nopt", 40]
+        return ["-corpus", CORPUS, "-small-max", 3, "-nrand", 5000, "-ndp", 2000, "-nctx", 2000, "-nexpr", 600, "-nring", 400, "-nopt", 400]
     raise ValueError(kind)
 
 
